@@ -1,5 +1,6 @@
 //! E4: component-level generators — count-min sketch / TinyLFU (C13), bloom filter (C14),
 //! the policy's admission rule (C07), key builders (C18 part A), Histogram (C17 part).
+use std::time::Duration;
 use crate::common::*;
 use proptest::prelude::*;
 use serde::{Deserialize, Serialize};
@@ -1076,4 +1077,196 @@ pub fn run_hist(c: &HistCase) -> Result<CompFeats, String> {
         return Err("[hist_clear] clear did not zero the count".to_string());
     }
     Ok(CompFeats { nontrivial: !c.samples.is_empty(), classes: vec![] })
+}
+
+// ------------------------------------------------------------------------------------------
+// value types: the same quiescent history on caches of several value types, default everything
+// ------------------------------------------------------------------------------------------
+
+#[derive(Clone, Debug, Serialize, Deserialize, Hash, PartialEq, Eq)]
+pub enum TOp {
+    Insert { k: u8, cost: u8, ttl_s: u16 },
+    Iip { k: u8, cost: u8 },
+    Remove { k: u8 },
+    Get { k: u8 },
+    GetTtl { k: u8 },
+}
+
+#[derive(Clone, Debug, Serialize, Deserialize, Hash)]
+pub struct TypedCase {
+    /// 0: (), 1: u8, 2: u64, 3: [u8; 64], 4: String, 5: Vec<u32>
+    pub vt: u8,
+    pub asynchronous: bool,
+    pub metrics: bool,
+    pub ops: Vec<TOp>,
+}
+
+pub fn typed_strategy() -> BoxedStrategy<TypedCase> {
+    let op = prop_oneof![
+        5 => (0u8..5, 0u8..4, prop_oneof![3 => Just(0u16), 2 => 100u16..4000]).prop_map(|(k, cost, ttl_s)| TOp::Insert { k, cost, ttl_s }),
+        3 => (0u8..5, 0u8..4).prop_map(|(k, cost)| TOp::Iip { k, cost }),
+        2 => (0u8..5).prop_map(|k| TOp::Remove { k }),
+        2 => (0u8..5).prop_map(|k| TOp::Get { k }),
+        2 => (0u8..5).prop_map(|k| TOp::GetTtl { k }),
+    ];
+    (0u8..6, proptest::bool::weighted(0.3), any::<bool>(), proptest::collection::vec(op, 2..14))
+        .prop_map(|(vt, asynchronous, metrics, ops)| TypedCase { vt, asynchronous, metrics, ops })
+        .boxed()
+}
+
+fn typed_rt() -> &'static tokio::runtime::Runtime {
+    static RT: std::sync::OnceLock<tokio::runtime::Runtime> = std::sync::OnceLock::new();
+    RT.get_or_init(|| tokio::runtime::Builder::new_multi_thread().worker_threads(4).enable_all().build().unwrap())
+}
+
+/// one quiescent history (wait() after every write) against an exact map; `mk` makes the value for
+/// a serial number, `eq` compares two values (always true for the unit type)
+fn typed_history<V: Send + Sync + Clone + 'static>(c: &TypedCase, mk: fn(u32) -> V, eq: fn(&V, &V) -> bool, only: &[&str]) -> Result<CompFeats, String> {
+    use std::collections::HashMap;
+    let mut feats = CompFeats { nontrivial: false, classes: vec![] };
+    let fail = |pred: &str, msg: String| -> Result<(), String> {
+        if only.contains(&pred) {
+            Err(format!("[{}] value type #{} ({} bytes){}: {}", pred, c.vt, std::mem::size_of::<V>(), if c.asynchronous { ", async" } else { "" }, msg))
+        } else {
+            Ok(())
+        }
+    };
+    // model: key -> (serial, ttl seconds or 0)
+    let mut model: HashMap<u8, (u32, u16)> = HashMap::new();
+    let mut serial = 0u32;
+    macro_rules! history {
+        ($cache:expr, $aw:ident) => {{
+            let cache = $cache;
+            for (step, op) in c.ops.iter().enumerate() {
+                match op {
+                    TOp::Insert { k, cost, ttl_s } => {
+                        serial += 1;
+                        let r = if *ttl_s == 0 { $aw!(cache.try_insert(*k as u64, mk(serial), *cost as i64)) } else { $aw!(cache.try_insert_with_ttl(*k as u64, mk(serial), *cost as i64, Duration::from_secs(*ttl_s as u64))) };
+                        let r = r.map_err(|e| e.to_string());
+                        if r != Ok(true) {
+                            fail("typed_map", format!("step {}: insert of key {} into a nearly empty cache returned {:?}", step, k, r))?;
+                        }
+                        model.insert(*k, (serial, *ttl_s));
+                    }
+                    TOp::Iip { k, cost } => {
+                        serial += 1;
+                        let r = $aw!(cache.try_insert_if_present(*k as u64, mk(serial), *cost as i64)).map_err(|e| e.to_string());
+                        let want = model.contains_key(k);
+                        if r != Ok(want) {
+                            fail("typed_iip", format!("step {}: insert_if_present on a {} key returned {:?}", step, if want { "resident" } else { "absent" }, r))?;
+                        }
+                        if want {
+                            model.insert(*k, (serial, 0));
+                            feats.nontrivial = true;
+                        }
+                    }
+                    TOp::Remove { k } => {
+                        let _ = $aw!(cache.try_remove(&(*k as u64)));
+                        model.remove(k);
+                    }
+                    TOp::Get { .. } | TOp::GetTtl { .. } => {}
+                }
+                let w = $aw!(cache.wait()).map_err(|e| e.to_string());
+                if w.is_err() {
+                    return Err(format!("HARNESS wait() failed in the typed engine: {:?}", w));
+                }
+                // every key of the domain
+                for k in 0u8..5 {
+                    let got = $aw!(cache.get(&(k as u64))).map(|r| r.value().clone());
+                    match (got, model.get(&k)) {
+                        (None, None) => {}
+                        (Some(v), Some((s, _))) => {
+                            if !eq(&v, &mk(*s)) {
+                                fail("typed_map", format!("step {}: key {} holds another value than the last one written (#{})", step, k, s))?;
+                            }
+                        }
+                        (None, Some((s, _))) => fail("typed_map", format!("step {}: key {} (value #{}) is gone although the cache is far below capacity", step, k, s))?,
+                        (Some(_), None) => fail("typed_map", format!("step {}: key {} is retrievable although it was removed / never inserted", step, k))?,
+                    }
+                    let t = cache.get_ttl(&(k as u64));
+                    match (t, model.get(&k)) {
+                        (None, None) => {}
+                        (Some(d), Some((_, 0))) => {
+                            if d != Duration::MAX {
+                                fail("typed_ttl", format!("step {}: key {} was last written without TTL but reports {:?}", step, k, d))?;
+                            }
+                        }
+                        (Some(d), Some((_, ttl))) => {
+                            let max = Duration::from_secs(*ttl as u64);
+                            if d > max || d + Duration::from_secs(60) < max {
+                                fail("typed_ttl", format!("step {}: key {} was last written with a TTL of {} s but reports {:?}", step, k, ttl, d))?;
+                            }
+                        }
+                        (None, Some(_)) | (Some(_), None) => fail("typed_ttl", format!("step {}: get_ttl of key {} disagrees with its presence", step, k))?,
+                    }
+                }
+            }
+            if cache.len() != model.len() {
+                fail("typed_map", format!("len() {} != {} keys written and not removed", cache.len(), model.len()))?;
+            }
+            let _ = $aw!(cache.close());
+        }};
+    }
+    macro_rules! now {
+        ($e:expr) => {
+            $e
+        };
+    }
+    if c.asynchronous {
+        let rt = typed_rt();
+        let cache = stretto::AsyncCache::<u64, V>::builder(1000, 1 << 40).set_metrics(c.metrics).finalize(|f| {
+            typed_rt().spawn(f);
+        });
+        let cache = cache.map_err(|e| format!("HARNESS typed cache could not be built: {}", e))?;
+        let r: Result<(), String> = rt.block_on(async {
+            macro_rules! aw {
+                ($e:expr) => {
+                    $e.await
+                };
+            }
+            history!(&cache, aw);
+            Ok(())
+        });
+        r?;
+    } else {
+        let cache = stretto::Cache::<u64, V>::builder(1000, 1 << 40).set_metrics(c.metrics).finalize().map_err(|e| format!("HARNESS typed cache could not be built: {}", e))?;
+        history!(&cache, now);
+    }
+    feats.classes.push(match c.vt {
+        0 => "unit",
+        1 => "u8",
+        2 => "u64",
+        3 => "array64",
+        4 => "string",
+        _ => "vec",
+    });
+    Ok(feats)
+}
+
+fn run_typed_only(c: &TypedCase, only: &[&str]) -> Result<CompFeats, String> {
+    let r = caught(|| match c.vt {
+        0 => typed_history::<()>(c, |_| (), |_, _| true, only),
+        1 => typed_history::<u8>(c, |s| s as u8, |a, b| a == b, only),
+        2 => typed_history::<u64>(c, |s| s as u64 * 0x1_0000_0001, |a, b| a == b, only),
+        3 => typed_history::<[u8; 64]>(c, |s| [s as u8; 64], |a, b| a == b, only),
+        4 => typed_history::<String>(c, |s| format!("value-{}", s), |a, b| a == b, only),
+        _ => typed_history::<Vec<u32>>(c, |s| vec![s; (s % 7) as usize], |a, b| a == b, only),
+    });
+    match r {
+        Ok(r) => r,
+        Err(p) => Err(format!("[typed_panic] value type #{}: {}", c.vt, p)),
+    }
+}
+
+pub fn run_typed_c04(c: &TypedCase) -> Result<CompFeats, String> {
+    run_typed_only(c, &["typed_map"])
+}
+pub fn run_typed_c09(c: &TypedCase) -> Result<CompFeats, String> {
+    run_typed_only(c, &["typed_iip", "typed_ttl"])
+}
+pub fn run_typed_c03(c: &TypedCase) -> Result<CompFeats, String> {
+    run_typed_only(c, &["typed_ttl"])
+}
+pub fn run_typed_all(c: &TypedCase) -> Result<CompFeats, String> {
+    run_typed_only(c, &["typed_map", "typed_iip", "typed_ttl"])
 }
